@@ -17,7 +17,8 @@ if __name__ != '__main__':
 
 THEOREMS = ['C07_prefix_inj', 'C07_prefix_unique', 'C07_prefix_total', 'C07_sort_det', 'C07_toposort_total',
             'C07_toposort_sound', 'C07_toposort_det', 'C07_doc_det',
-            'C07_wsdl_closed', 'C07_one_op', 'C07_binding_unique', 'C07_binding_ops', 'C07_foreign_bare_refuted']
+            'C07_wsdl_closed', 'C07_one_op', 'C07_binding_unique', 'C07_binding_ops', 'C07_schema_closed',
+            'C07_wf_decidable', 'C07_foreign_bare_refuted', 'C07_header_reuse_refuted']
 
 HERE = os.path.abspath(__file__)
 PY = '/venv/bin/python'
@@ -204,6 +205,9 @@ def finding_specs():
     out.append(('bare-class-reused-as-header', {'tns': 'urn:c07:tns', 'name': 'App', 'classes': K, 'faults': [], 'services': [
         S('Svc0', [M('m0', [('prim', 'Unicode')], ('cls', 0), style='out_bare'),
                    M('m1', [('prim', 'Unicode')], ('prim', 'Unicode'), in_header=[0])])]}))
+    # wrapped request published in a foreign namespace: the schema is fine, the server does not find the method
+    out.append(('foreign-wrapped-in-message', {'tns': 'urn:c07:tns', 'name': 'App', 'classes': [], 'faults': [], 'services': [
+        S('Svc0', [M('m0', [('prim', 'Unicode')], in_name='{urn:c07:e}In0')])]}))
     out.append(('cyclic-types', {'tns': 'urn:c07:tns', 'name': 'App', 'cyclic': True, 'classes': [
         {'name': 'K0', 'ns': 'urn:c07:a', 'base': None, 'fields': [['x', ['prim', 'Integer']]]},
         {'name': 'K1', 'ns': 'urn:c07:a', 'base': None, 'fields': [['a', ['cls', 0]]]}], 'faults': [], 'services': [
@@ -996,15 +1000,20 @@ IMPORTS = ('From SpyneV Require Import Base.Prelude C07.Model.\n'
            'Fixpoint pl_eqb (a b : list (text * text)) : bool := match a, b with [] , [] => true\n'
            '  | x :: a, y :: b => text_eqb (fst x) (fst y) && text_eqb (snd x) (snd y) && pl_eqb a b | _, _ => false end.\n'
            'Definition obs := (option (list text * list (text * text)))%type.\n'
-           'Definition c07_ok (c : snap * list Z * obs) : bool :=\n'
-           '  let \'(a, rank, o) := c in\n'
+           'Definition c07_ok (c : snap * list Z * obs * bool) : bool :=\n'
+           '  let \'(a, rank, o, guard) := c in\n'
            '  match render (perm_by rank) a, o with\n'
            '  | ROk (toks, nm), Some (otoks, onm) =>\n'
            '      tl_eqb toks otoks && pl_eqb (isort (fun x y => text_leb (fst x) (fst y)) nm) onm\n'
+           '      && implb guard (wf_snapb a)\n'
            '  | RErr EKeyError, None | RErr EAssertCyclic, None | RErr EValueError, None | RErr ESameName, None => true\n'
            '  | _, _ => false end.\n'
-           'Definition c07_show (c : snap * list Z * obs) :=\n'
-           '  let \'(a, rank, o) := c in render (perm_by rank) a.')
+           'Definition c07_show (c : snap * list Z * obs * bool) :=\n'
+           '  let \'(a, rank, o, guard) := c in (wf_snapb a, render (perm_by rank) a).')
+
+# the regions of the known findings in which the hypothesis wf_snap of C07_schema_closed does not hold
+GUARD_REGIONS = frozenset(['bare-simple-foreign-ns', 'bare-complex-foreign-ns', 'bare-class-reused-as-header',
+                           'cyclic-types'])
 
 def process(check, name, spec, cases, want_zeep=True):
     """build, snapshot, build the document, parse, queue the correspondence case, run the oracle.
@@ -1027,7 +1036,7 @@ def process(check, name, spec, cases, want_zeep=True):
         key = 'C07|build-crash|%s|%s' % (type(e).__name__, region[0] if region else 'any')
         check.fail(key, '%s: build_interface_document raised %s: %s' % (name, type(e).__name__, str(e).split('\n')[0][:200]),
                    {'spec': spec, 'name': name})
-        cases.append(('(%s, %s, None)' % (term, glist([gz(x) for x in rank])), name + ' (build raises)'))
+        cases.append(('(%s, %s, None, false)' % (term, glist([gz(x) for x in rank])), name + ' (build raises)'))
         check.count(('crash', name, json.dumps(spec, sort_keys=True)))
         return None
     try:
@@ -1040,7 +1049,8 @@ def process(check, name, spec, cases, want_zeep=True):
         check.mismatch('wsdl_skeleton', '%s: document has nodes the skeleton does not cover: %r' % (name, P['unknown'][:3]))
     obs = '(Some (%s, %s))' % (glist([gtext(t or '') for t in P['tokens']]),
                                glist(['(%s, %s)' % (gtext(k), gtext(v)) for k, v in P['nsmap']]))
-    cases.append(('(%s, %s, %s)' % (term, glist([gz(x) for x in rank]), obs), name))
+    guard = not (features & GUARD_REGIONS)
+    cases.append(('(%s, %s, %s, %s)' % (term, glist([gz(x) for x in rank]), obs, gbool(guard)), name))
     check.count(('doc', json.dumps(spec, sort_keys=True)))
     for key, what in oracle_structure(P, b.app, features):
         check.fail(key, '%s: %s' % (name, what), {'spec': spec, 'name': name, 'stage': 'structure'})
@@ -1133,8 +1143,16 @@ def run(check):
                           'classes': len(spec['classes'])})
     fnamed = finding_specs()
     for name, spec in fnamed:
-        process(check, name, spec, cases, want_zeep=False)
-    lib.correspond(check, 'wsdl_skeleton', IMPORTS, 'snap * list Z * obs', 'c07_ok', cases, shard=12,
+        process(check, name, spec, cases, want_zeep=True)   # the client runs only where the structure is sound
+    # the oracle and the theorem must talk about the same XSD builtins
+    lib.correspond(check, 'xsd_builtins', 'From SpyneV Require Import Base.Prelude C07.Model.\n'
+                   'Fixpoint tl_eqb (a b : list text) : bool := match a, b with [] , [] => true\n'
+                   '  | x :: a, y :: b => text_eqb x y && tl_eqb a b | _, _ => false end.\n'
+                   'Definition bi_ok (c : text * list text) : bool :=\n'
+                   '  text_eqb (fst c) xsd_ns && tl_eqb (isort text_leb (snd c)) (isort text_leb xsd_builtins).',
+                   'text * list text', 'bi_ok',
+                   [('(%s, %s)' % (gtext(NS_XSD), glist([gtext(x) for x in sorted(XSD_BUILTINS)])), 'XSD_BUILTINS')])
+    lib.correspond(check, 'wsdl_skeleton', IMPORTS, 'snap * list Z * obs * bool', 'c07_ok', cases, shard=12,
                    show='c07_show')
     # byte identity in fresh processes under different hash seeds
     seeds = [0, 1, 2, 7] if tier == 'quick' else [0, 1, 2, 3, 5, 7, 11, 13, 101, 4242]
